@@ -581,6 +581,19 @@ func (s *session) rebalance(op hOp) {
 			}
 		})
 	}
+	// C03: events the server sends on the re-requested streams while the rebalance is still completing (every request
+	// answered, AfterStreamStart running) belong to the new session: delivered like any other
+	builtInHook := false
+	if s.oracles["C03"] && !s.oracles["C12"] && op.Snap%3 != 2 && !(s.scrapeClosed != nil && op.AtL) {
+		s.hand.hook("ASStart", func() {
+			s.buildModel(nOpens)
+			builtInHook = true
+			for i, k := 0, 1+((op.Snap%3)+3)%3; i < k && s.viol == nil; i++ {
+				s.deliver(hOp{Op: "deliver", Vb: op.Vb + i, Kind: "mut", Snap: i})
+			}
+			s.label("delivered_while_rebalance_completes")
+		})
+	}
 	ok, pv := within(20*time.Second, func() { s.st.Rebalance() })
 	if !ok || pv != nil {
 		s.fail("C04", "Rebalance() did not return cleanly (returned=%v panic=%v)", ok, pv)
@@ -625,7 +638,9 @@ func (s *session) rebalance(op hOp) {
 	}
 	s.trackSeen = len(s.cons.trackLog())
 	s.trackBase = s.trackSeen
-	s.buildModel(nOpens)
+	if !builtInHook {
+		s.buildModel(nOpens)
+	}
 	if endedInRebalance >= 0 && s.oracles["C12"] {
 		s.checkActive()
 	}
